@@ -1,5 +1,6 @@
 import P0f.Model.Wirefmt
 import P0f.Model.Match
+import P0f.Model.Find
 /-
   Line-protocol driver: one tab-separated op per input line, one answer line per op.
   Every op is answered by the *model* definitions that the theorems in `P0f/Props` are about.
@@ -40,6 +41,21 @@ def handle (f : Array String) : String :=
                      ipVer := parseNat f[4]!, hdrLen := parseNat f[5]!, synMss := parseNat f[6]! }
     let m := windowMult w
     s!"{m.1} {if m.2 then 1 else 0}"
+  | "find" =>
+    let isSyn := parseBool f[1]!
+    let d := parseInt f[2]!
+    let k := pktSigOf f 3
+    let nreq := parseNat f[16]!
+    let nresp := parseNat f[17]!
+    let recAt (i : Nat) : Rec :=
+      let o := 18 + 14 * i
+      { generic := parseBool f[o]!, userApp := parseBool f[o+1]!, sig := sigOf f (o+2), line := i + 1 }
+    let db : TcpDb := { req := (List.range nreq).map recAt,
+                        resp := (List.range nresp).map fun i => recAt (nreq + i) }
+    let (m, dist) := fingerprintTcp db k isSyn d
+    match m with
+    | none => s!"none {dist}"
+    | some (mt, r) => s!"{r.line} {mtStr (some mt)} {dist}"
   | op => s!"ERR unknown-op {op}"
 
 partial def loop (h : IO.FS.Stream) (out : IO.FS.Stream) : IO Unit := do
